@@ -30,6 +30,9 @@ pub enum Dev {
     /// dedicated constraint over committed values; verifier's coefficient j (or
     /// the constant if None) is off by d
     CommittedCoef(Option<usize>, S),
+    /// dedicated constraint with EQUAL coefficients on all commitments; the
+    /// verifier's coefficient j >= 1 is off by k * 2^64 (same low 64 bits)
+    CommittedCoefLow64(usize, u8),
     TLabel(usize),
     PreDrop(usize),
     PreChange(usize),
@@ -60,6 +63,7 @@ impl Dev {
             Dev::Constant(..) => "F7-constant-changed",
             Dev::CommittedCoef(Some(_), _) => "F7-committed-coefficient-changed",
             Dev::CommittedCoef(None, _) => "F7-committed-constant-changed",
+            Dev::CommittedCoefLow64(..) => "F7-committed-coefficient-plus-multiple-of-2^64",
             Dev::TLabel(_) => "F7-transcript-label",
             Dev::PreDrop(_) => "F7-precontext-dropped",
             Dev::PreChange(_) => "F7-precontext-changed",
@@ -336,6 +340,48 @@ fn apply_dev<G: AffineRepr>(
             v2.ops.push(mk(Some((*which, d))));
             Some((p2, v2, id, true))
         }
+        Dev::CommittedCoefLow64(j, k) => {
+            if m < 2 || *j == 0 || *j >= m {
+                return None;
+            }
+            let t_commit: Vec<usize> = {
+                let mut idx = vec![];
+                let mut t = 0;
+                for op in &base.ops {
+                    if matches!(op, Op::Commit { .. }) {
+                        idx.push(t);
+                    }
+                    t += op_outputs(op);
+                }
+                idx
+            };
+            let vals: Vec<G::ScalarField> = base.ops.iter().filter_map(|o| if let Op::Commit { v, .. } = o { Some(v.f()) } else { None }).collect();
+            if vals[*j] == G::ScalarField::from(0u64) {
+                return None;
+            }
+            let three = G::ScalarField::from(3u64);
+            let kk: G::ScalarField = vals.iter().map(|v| three * v).sum();
+            let two64 = G::ScalarField::from(u64::MAX) + G::ScalarField::from(1u64);
+            let mk = |bump: bool| -> Op {
+                let terms = t_commit
+                    .iter()
+                    .enumerate()
+                    .map(|(i, t)| {
+                        let mut c = three;
+                        if bump && i == *j {
+                            c += two64 * G::ScalarField::from(1 + (*k % 3) as u64);
+                        }
+                        (TermVar::V(*t), Coef::Lit(S::of(&c)))
+                    })
+                    .collect();
+                Op::Constrain(Expr::sub(Expr::Terms(terms, false), Expr::K(S::of(&kk))))
+            };
+            let mut p2 = base.clone();
+            p2.ops.push(mk(false));
+            let mut v2 = base.clone();
+            v2.ops.push(mk(true));
+            Some((p2, v2, id, true))
+        }
         Dev::TLabel(l) => {
             if *l == base.tlabel {
                 return None;
@@ -580,6 +626,7 @@ pub fn gen_dev(rng: &mut Rng, base: &SessionCase, kn: &gen::Knobs) -> Dev {
                 Dev::CommitSwap(i, j)
             }
             7 if !cons.is_empty() => Dev::Constant(*pick(rng, &cons), d()),
+            8 if m > 1 && chance(rng, 1, 2) => Dev::CommittedCoefLow64(1 + below(rng, m - 1), (rng.next_u32() % 3) as u8),
             8 | 9 if m > 0 => Dev::CommittedCoef(if chance(rng, 1, 2) { Some(below(rng, m)) } else { None }, gen_scalar_nonzero::<ark_secq256k1::Fr>(rng)),
             10 => Dev::TLabel((st.tlabel + 1 + below(rng, TLABELS.len() - 1)) % TLABELS.len()),
             11 if !st.pre.is_empty() => Dev::PreDrop(below(rng, st.pre.len())),
